@@ -9,13 +9,27 @@ From AwVerif Require Import Base.Prelude Model.StoreBase Model.SqliteStore Model
 From AwVerif Require Import Model.PeeweeStore Model.SqliteDate Proofs.WindowSpec Proofs.WindowPeewee
   Proofs.SqliteDate.
 
-(* the code's float expressions (binary64 division, int()) compute the integer model, for
-   every aware datetime (utc instant, utcoffset) *)
+(* the code's float expressions (binary64 division, int()) compute the integer model, on the
+   microsecond field of every reading (utc instant, utcoffset) ... *)
 Theorem C03_round_float : forall utc off,
   round_start_f utc off = Ok (round_start_tz utc off) /\
   round_end_f utc off = Ok (round_end_tz utc off).
 Proof. exact (fun utc off => conj (round_start_f_exact utc off) (round_end_f_exact utc off)). Qed.
 Print Assumptions C03_round_float.
+
+(* ... and, as Bucket.get applies them since 49e3288 (on the UTC reading of the edge), they give
+   floor_ms / floor_ms + 1000 of the instant for EVERY utcoffset (before: whole-millisecond
+   utcoffsets) *)
+Theorem C03_round_float_closed : forall utc off,
+  bucket_round_start_f utc off = Ok (bucket_round_start_tz utc off) /\
+  bucket_round_end_f utc off = Ok (bucket_round_end_tz utc off) /\
+  bucket_round_start_f utc off = Ok (floor_ms utc) /\
+  bucket_round_end_f utc off = Ok (floor_ms utc + 1000).
+Proof.
+  exact (fun utc off => conj (proj1 (bucket_round_f_exact utc off)) (conj (proj2 (bucket_round_f_exact utc off))
+           (bucket_get_float_closed utc off))).
+Qed.
+Print Assumptions C03_round_float_closed.
 
 (* the oracle hypothesis discharged for the parameters the code computes: functions that agree
    with the binary64 model of `t.timestamp() * 1000000` (ceiling / floor taken by SQLite's exact
